@@ -27,12 +27,10 @@ commits); the model follows the repaired code and the theorems hold at full stre
 No finding is open for this property.
 
 OBSERVATIONS outside the property's statement (`is_safe_nonmalleable` is not mentioned by C18; T8
-below documents the model, the check never alarms on it): `TRIVIAL` is given the flag `signed`,
-so `or(pk, TRIVIAL)` is reported to need a signature (`is_safe_exact_full_false`; exact for
-`TRIVIAL`-free policies: `is_safe_exact_partial`); the `non-malleable` flag is compared with
-`Spec.isNonMalleableSpec` on every run where the two agree today (no theorem) and differs for
-`TRIVIAL` and for `or` with more than two branches.
-  `trivialFree c`    no `TRIVIAL` leaf                                   (Model/Concrete.lean)
+below documents the model): the `signed` flag is exact (`is_safe_exact`; `TRIVIAL` used to be
+flagged `signed`, repaired in /repo for C08); the `non-malleable` flag is compared with
+`Spec.isNonMalleableSpec` on every run (no theorem) and differs for `or` with more than two
+branches (one signed branch suffices).
 -/
 import MsVerif.Lemmas.PolicyOps
 import MsVerif.Lemmas.PolicyMinKeys
@@ -41,6 +39,7 @@ import MsVerif.Lemmas.PolicyEntails
 import MsVerif.Lemmas.PolicySels
 import MsVerif.Lemmas.PolicySafe
 import MsVerif.Lemmas.PolicySort
+import MsVerif.Lemmas.PolicyLocks
 
 namespace MsVerif.C18
 open MsVerif.Pol MsVerif.Pol.Sem MsVerif.Pol.Conc
@@ -146,6 +145,14 @@ theorem at_lock_time_holds (W : World) (p : Policy) :
 theorem at_lock_time_no_stale_lock (n : Nat) (p : Policy) (t : Nat)
     (h : Atom.after t ∈ atomsOf (atLockTime n p)) : cltvOk n t = true :=
   atoms_atLockTimeRaw n p t (atoms_normalized _ _ h)
+
+/-- `relative_timelocks` / `absolute_timelocks` list exactly the `older` / `after` values of the
+policy, strictly ascending (each once) -/
+theorem timelock_lists_exact (p : Policy) :
+    (∀ t, t ∈ relativeTimelocks p ↔ Atom.older t ∈ atomsOf p)
+    ∧ (∀ t, t ∈ absoluteTimelocks p ↔ Atom.after t ∈ atomsOf p)
+    ∧ (relativeTimelocks p).Pairwise (· < ·) ∧ (absoluteTimelocks p).Pairwise (· < ·) :=
+  ⟨mem_relativeTimelocks p, mem_absoluteTimelocks p, sortDedup_strict _, sortDedup_strict _⟩
 
 /-! ## T4 — `entails` -/
 
@@ -407,22 +414,16 @@ hold when nobody signs and everything else is available -/
 theorem safe_spec_characterisation (c : CPolicy) : isSafeSpec c = !holdsC noKeys c :=
   isSafeSpec_eq c
 
-/-- the property as stated: `signed` ⇔ every satisfaction needs a signature -/
-def is_safe_exact_full : Prop :=
-  ∀ c : CPolicy, WFC c = true → (isSafeNonmalleable c).1 = isSafeSpec c
-
-/-- proved for `TRIVIAL`-free policies.  Missing for the full statement: the library gives
-`TRIVIAL` the flag `signed` (witness below). -/
-theorem is_safe_exact_partial (c : CPolicy) (hw : WFC c = true) (ht : trivialFree c = true) :
+/-- `signed` ⇔ every satisfaction of the policy needs a signature — every well-formed concrete
+policy (`TRIVIAL`, `UNSATISFIABLE`, n-ary `and` / `or` included) -/
+theorem is_safe_exact (c : CPolicy) (hw : WFC c = true) :
     (isSafeNonmalleable c).1 = isSafeSpec c := by
-  rw [isSafeSpec_eq]; exact safe_exact c hw ht
+  rw [isSafeSpec_eq]; exact safe_exact c hw
 
-/-- `or(pk(0), TRIVIAL)` is reported to need a signature although `TRIVIAL` spends it -/
-theorem is_safe_exact_full_false : ¬ is_safe_exact_full := by
-  intro h
-  have := h (.or [.atom (.key 0), .trivial]) (by decide)
-  rw [isSafeSpec_eq, safe_trivial_witness.1, safe_trivial_witness.2] at this
-  simp at this
+/-- the former witness: `or(pk(0), TRIVIAL)` is no longer reported to need a signature -/
+theorem is_safe_former_witness :
+    (isSafeNonmalleable (.or [.atom (.key 0), .trivial])).1 = false
+    ∧ isSafeSpec (.or [.atom (.key 0), .trivial]) = false := by decide
 
 /-! ## Non-vacuity: the hypotheses are satisfiable by non-trivial values, the functions are
 not constant -/
@@ -475,7 +476,7 @@ example : andOrNonEmpty (.and [exC, .thresh 2 [.atom (.older 4194305), .atom (.k
     ∧ threshKPos (.and [exC, .thresh 2 [.atom (.older 4194305), .atom (.key 3)]]) = true
     ∧ hasMixedPath (.and [exC, .thresh 2 [.atom (.older 4194305), .atom (.key 3)]]) = true := by
   decide
--- `is_safe_exact_partial`: `exC` is not safe (older(144) + after(..) + one key … no: two of
+-- `is_safe_exact`: `exC` is not safe (older(144) + after(..) + one key … no: two of
 -- {pk1, pk2, after} always include a key) — it IS safe; dropping a key makes it unsafe
 example : (isSafeNonmalleable exC).1 = true ∧ isSafeSpec exC = true := by decide
 example : WFC (.and [.or [.atom (.key 0), .atom (.older 144)],
